@@ -1648,6 +1648,13 @@ fn main() {
                 c11::<Lut>(c, n);
                 c.rng = Rng(s);
                 with_static!(n, c11(&mut *c, n));
+                if n <= 8 {
+                    // every syntactic form of the logical operators: identical operands on both types
+                    c.rng = Rng(s);
+                    c01::<Lut>(c, n);
+                    c.rng = Rng(s);
+                    with_static!(n, c01(&mut *c, n));
+                }
                 if n <= 9 {
                     // shared BDD size of lists of functions: identical lists on both types
                     c.rng = Rng(s);
